@@ -358,7 +358,16 @@ void vfps::HDF5File::addParameterToGroup(std::string groupname,
 void vfps::HDF5File::append(const ElectricField* ef, const bool fullspectrum)
 {
     if (fullspectrum) {
-        _appendData(_csrSpectrum,ef->getCSRSpectrum());
+        /* The dataset holds the first _maxn frequencies per bunch,
+         * the rows in memory are getNMax() entries long.
+         */
+        const csrpower_t* spectrum = ef->getCSRSpectrum();
+        const size_t nmax = ef->getNMax();
+        std::vector<csrpower_t> rows(_nBunches*_maxn);
+        for (size_t b=0; b<_nBunches; b++) {
+            std::copy_n(spectrum+b*nmax,_maxn,rows.data()+b*_maxn);
+        }
+        _appendData(_csrSpectrum,rows.data());
     }
     _appendData(_csrIntensity,ef->getCSRPower());
 }
